@@ -173,11 +173,26 @@ def r_crosscheck(ck: Checker) -> None:
     ck.add("for every literal of the group", okk and n > 0, func, upd[0], f"unconditional in its loop: {okk}", "")
     # lits: group literals and used inequalities are removed before the visibility test, nothing else
     rem = [c for c in attr_calls(func, "remove") if unparse(c.func.value) == "lits"]  # type: ignore[attr-defined]
-    ck.need(len(rem) == 1, "group literals are removed from the visible literals")
-    st0 = it.states(rem[0])[0]
-    org = st0.origin.get(unparse(rem[0].args[0]), "")
-    ck.add("only the group's own literals are hidden", bool(re.fullmatch(r"potential_equalities\[\w+\]\[\*\]", org)), func, rem[0], f"removed literals come from `{org}`",
-           "hiding more literals would overlook a use of the compared variables")
+    if len(rem) == 1:
+        st0 = it.states(rem[0])[0]
+        org = st0.origin.get(unparse(rem[0].args[0]), "")
+        ck.add("only the group's own literals are hidden", bool(re.fullmatch(r"potential_equalities\[\w+\]\[\*\]", org)), func, rem[0], f"removed literals come from `{org}`",
+               "hiding more literals would overlook a use of the compared variables")
+    else:
+        # the same as a filter: lits = [x for x in lits if x not in potential_equalities[i]]
+        filt = [n for n in find_nodes(func.node, lambda n: isinstance(n, (ast.Assign, ast.AnnAssign))) if unparse(getattr(n, "target", None) or n.targets[0]) == "lits"  # type: ignore[attr-defined]
+                and n.value is not None and re.fullmatch(r"\[(\w+) for \1 in lits if \1 not in potential_equalities\[\w+\]\]", unparse(n.value))]  # type: ignore[attr-defined]
+        ck.need(len(filt) == 1, "group literals are removed from the visible literals")
+        ck.add("only the group's own literals are hidden", True, func, filt[0], f"`{short(unparse(filt[0]), 90)}`", "hiding more literals would overlook a use of the compared variables")
+    # ... and they are hidden for the candidate subset under test only: the list starts from the whole scope again for
+    # every candidate (a rejected larger candidate must not leave its groups hidden for the smaller ones)
+    subs = [lp for lp in find_nodes(func.node, lambda n: isinstance(n, ast.For)) if "largest_subset(" in unparse(lp.iter)]  # type: ignore[attr-defined]
+    ck.need(len(subs) == 1, "_crosscheck tries the candidate subsets in a loop over largest_subset(...)")
+    fresh_ = [n for n in find_nodes(subs[0], lambda n: isinstance(n, (ast.Assign, ast.AnnAssign))) if unparse(getattr(n, "target", None) or n.targets[0]) == "lits"  # type: ignore[attr-defined]
+              and n.value is not None and unparse(n.value) == f"list({params[4]})"]  # type: ignore[attr-defined]
+    ok_f = len(fresh_) == 1 and enclosing_loop(func, fresh_[0]) is subs[0]
+    ck.add("the visible literals start from the whole scope for every candidate subset", ok_f, func, fresh_[0] if fresh_ else subs[0], f"`lits = list({params[4]})` at the top of the loop over the candidates: {ok_f}",
+           "literals of a group hidden while a larger candidate was examined stay part of the rule when that candidate is rejected: a smaller candidate whose variable occurs in them must be rejected too")
     lits_init = [n for n in find_nodes(func.node, lambda n: isinstance(n, (ast.Assign, ast.AnnAssign))) if unparse(getattr(n, "target", None) or n.targets[0]) == "lits"]  # type: ignore[attr-defined]
     inits = {unparse(n.value) for n in lits_init}  # type: ignore[attr-defined]
     ok = f"list({params[4]})" in inits and all(i == f"list({params[4]})" or same(i, "[x for x in lits if x not in neq_lits]") for i in inits)
